@@ -303,3 +303,15 @@ Proof.
   destruct (closed s'); [lia|]. apply parse1_msg_shorter in E. specialize (IH rest s'). lia.
 Qed.
 End FramingProofs.
+
+(** termination does not depend on the hypotheses about the session reaction *)
+Lemma loop_terminates_any (S : Type) dispatch hdr_err closed (buf : bytes) (s : S) :
+  snd (frame_loop S dispatch hdr_err closed (Datatypes.S (length buf)) buf s) = true.
+Proof.
+  apply (loop_terminates S dispatch hdr_err closed (fun _ => False)); intros; contradiction.
+Qed.
+Lemma iterations_bound_any (S : Type) dispatch hdr_err closed fuel (buf : bytes) (s : S) :
+  (19 * iterations S dispatch hdr_err closed fuel buf s <= length buf + 19)%nat.
+Proof.
+  apply (iterations_bound S dispatch hdr_err closed (fun _ => False)); intros; contradiction.
+Qed.
